@@ -107,7 +107,7 @@ func (o Op) String() string {
 }
 
 // IsWire reports whether the op is sent on the wire (as opposed to an environment event).
-func (o Op) IsWire() bool { return o.Kind != "evict" && o.Kind != "advance" }
+func (o Op) IsWire() bool { return o.Kind != "evict" && o.Kind != "evict-entry" && o.Kind != "advance" }
 
 var binOpcode = map[string]byte{
 	"get": 0x00, "set": 0x01, "add": 0x02, "replace": 0x03, "delete": 0x04, "quit": 0x07, "noop": 0x0a,
